@@ -41,11 +41,18 @@ fn main() {
     }
     let out_dir = std::env::var("OUT_DIR").unwrap();
     let mut o = fs::File::create(Path::new(&out_dir).join("node_match.rs")).unwrap();
-    writeln!(o, "pub fn try_locate_addr<'a>(n: &RefNode<'a>) -> (usize, Result<Locate, ()>) {{ match n {{").unwrap();
-    writeln!(o, "RefNode::Locate(x) => (*x as *const Locate as usize, Ok(**x)),").unwrap();
+    writeln!(o, "pub fn node_addr<'a>(n: &RefNode<'a>) -> usize {{ match n {{").unwrap();
+    writeln!(o, "RefNode::Locate(x) => *x as *const Locate as usize,").unwrap();
     for n in &names {
-        writeln!(o, "RefNode::{}(x) => (*x as *const _ as *const u8 as usize, Locate::try_from(*x)),", n).unwrap();
+        writeln!(o, "RefNode::{}(x) => *x as *const _ as *const u8 as usize,", n).unwrap();
     }
     writeln!(o, "}} }}").unwrap();
+    writeln!(o, "pub fn try_locate<'a>(n: &RefNode<'a>) -> Result<Locate, ()> {{ match n {{").unwrap();
+    writeln!(o, "RefNode::Locate(x) => Ok(**x),").unwrap();
+    for n in &names {
+        writeln!(o, "RefNode::{}(x) => Locate::try_from(*x),", n).unwrap();
+    }
+    writeln!(o, "}} }}").unwrap();
+    writeln!(o, "pub fn try_locate_addr<'a>(n: &RefNode<'a>) -> (usize, Result<Locate, ()>) {{ (node_addr(n), try_locate(n)) }}").unwrap();
     writeln!(o, "pub const NODE_KIND_COUNT: usize = {};", names.len() + 1).unwrap();
 }
